@@ -47,6 +47,9 @@ def oracle_eq(ck, m, four, h, x=None, co=None):
 def oracle(ck, extended):
     rng = ck.rng
     q = ck.tier == 'quick'
+    # deterministic witness of the recorded finding (single tiny coefficient image, length-8 filters, periodization)
+    w8a = np.array([1., 2., 3., 4., -1., 2., 1., -3.]); w8b = np.array([2., -1., 3., 1., 1., -2., 2., 1.])
+    rt.guard(ck, oracle_eq, ck, 2, False, (w8a, w8b, w8a, w8b), None, gen.int_tensor(rng, (1, 1, 4, 2, 2)))
     for it in range((120 if q else 1200) * (3 if extended else 1)):
         Lc = rng.randint(2, 8 if q else 14); m = rng.choice(MODES4)
         four = rng.random() < 0.5
